@@ -22,8 +22,8 @@ def bounded(tier, seed):
 
 MANIFEST = dict(
     category="other",
-    text='Contract-based proof of the bound-queue mechanism behind the fix-via-bounds options + bounded relational sweep: (solved?, objective) under every documented flag and every pair of flags equals the default run, for all 12 classes taking optimization_options.',
+    text='Contract-based proofs on the real source: the greedy shortcut (stores a solution only if admissible for the model) and the bound-queue mechanism behind the fix-via-bounds options + bounded relational sweep: (solved?, objective) under every documented flag and every pair of flags equals the default run, for all 12 classes taking optimization_options.',
     design_ref="DESIGN.md section 3 / C05",
     note='Invariance itself is only checked on the bounded universe. Trusted: HiGHS.',
-    technique='contract-based deductive verification of the bound queue (PyVC) + bounded relational option sweep on the real API',
+    technique='contract-based deductive verification of the greedy shortcut and the bound queue (PyVC) + bounded relational option sweep on the real API',
     engine='pyvc+rc')
